@@ -11,6 +11,7 @@ Numerical part left to the harness: the pixel centre lies inside the tile and in
 range of its corners (a statement about `_mid` on floats).
 -/
 import ToastyVerif.Props.C04
+import ToastyVerif.Gen.Plumbing
 
 namespace C05
 open Toast ToastBase
@@ -193,5 +194,9 @@ theorem level0_is_deep_centre (hcomm : ∀ a b, mid a b = mid b a) (k i j : Nat)
 /-- with the commutative midpoint of `C04.vtxN`: the 4 × 4 grid of tile (1, 1, 0), row 2, column 3, is the centre of tile (3, 7, 2) -/
 example : subsample (· + ·) (tileAt (· + ·) C04.vtxN false 1 1 0).inc 2 (tileAt (· + ·) C04.vtxN false 1 1 0).q 2 3 =
     centre (· + ·) (tileAt (· + ·) C04.vtxN false 3 7 2) := by decide
+
+/-- **entry_points**: the call sites through which this property's workflows reach the modelled functions have, in the source as
+it is now, the argument plumbing the model assumes (facts re-extracted on every run, `Gen/Plumbing.lean`) -/
+theorem entry_points : Gen.Plumbing.sample_layer_forwards_coordsys = true ∧ Gen.Plumbing.sample_layer_filtered_forwards_coordsys = true ∧ Gen.Plumbing.builder_toast_base_forwards_coordsys = true := by decide
 
 end C05
